@@ -31,8 +31,18 @@ def _mk(name, argnames, defaults, calls):
 FUNCS = collections.OrderedDict([("f", (("a", "b"), {})), ("g", (("f", "c"), {"c": 3})), ("h", (("g", "a"), {}))])
 
 
+# operations that build a populated registry: a, b, c, f(a, b), g(f, c), x -> f (start state of the 'registry-full' exploration)
+FULL = (
+    ("addp", "a", 0, "fail"),
+    ("addp", "b", 0, "fail"),
+    ("addf", "f", "fail"),
+    ("addf", "g", "fail"),
+    ("alias", "x", "f", "fail"),
+)
+
+
 class RegistryWorld(object):
-    def __init__(self):
+    def __init__(self, prefix=()):
         from kafe2.core.fitters import nexus as nx
 
         self.nx = nx
@@ -40,6 +50,9 @@ class RegistryWorld(object):
         self.calls = collections.Counter()
         self.defs = collections.OrderedDict()  # name -> ('P', v) | ('E',) | ('F', ver, params, deps) | ('A', target)
         self.nadd = 0
+        self.nrepl = 0
+        for op in prefix:
+            self.apply(op, None)
 
     # -- reference
     def ev(self, n, depth=0):
@@ -94,6 +107,12 @@ class RegistryWorld(object):
                 # replacing the placeholder by the function must not close a cycle through explicit dependencies
                 if not any(a in D and (a == fn or fn in self.reach(a)) for a in FUNCS[fn][0]):
                     ops.append(("addf", fn, "replace_if_empty"))
+            elif D[fn][0] == "F" and self.nrepl < 1:
+                # a function registered again under the same name (new version): the new node has the arguments of the
+                # new definition and none of the explicit dependencies of the old one; nodes that use or explicitly
+                # depend on the name now see the new node
+                if not any(a == fn or fn in self.reach(a) for a in FUNCS[fn][0] if a in D):
+                    ops.append(("addf", fn, "replace"))
         for al, targets in (("x", ("a", "f")), ("y", ("x",))):
             if al not in D:
                 for t in targets:
@@ -144,13 +163,21 @@ class RegistryWorld(object):
         elif k == "addf":
             _, fn, beh = op
             args, defaults = FUNCS[fn]
-            N.add_function(_mk(fn, args, defaults, self.calls), existing_behavior=beh)
+            func, ver = _mk(fn, args, defaults, self.calls), 0
+            if beh == "replace":
+                self.nrepl += 1
+                func.ver = ver = 1
+                if res is not None:
+                    res.facts["registry:function-replaced"] += 1
+                    if D[fn][3] or any(fn in d[3] for d in D.values() if d[0] == "F"):
+                        res.facts["registry:function-replaced:dep-only-edges"] += 1
+            N.add_function(func, existing_behavior=beh)
             for a in args:
                 if a not in D:
                     D[a] = ("P", defaults[a]) if a in defaults else ("E",)
                 elif D[a][0] == "E" and a in defaults:
                     D[a] = ("P", defaults[a])
-            D[fn] = ("F", 0, list(args), [])
+            D[fn] = ("F", ver, list(args), [])
         elif k == "alias":
             _, al, t, beh = op
             N.add_alias(al, alias_for=t, existing_behavior=beh)
@@ -248,7 +275,7 @@ class RegistryWorld(object):
     def key(self):
         roots = {n: self.nexus.get(n) for n in self.defs}
         roots["__root__"] = self.nexus.get("__root__")
-        return h64((fingerprint(roots), repr(sorted(self.defs.items())), self.nadd))
+        return h64((fingerprint(roots), repr(sorted(self.defs.items())), self.nadd, self.nrepl))
 
     def nontrivial(self):
         return any(d[0] == "F" for d in self.defs.values()) and any(
